@@ -340,7 +340,7 @@ func (h *History) bound(t *rapid.T, ti int, other []byte) ([]byte, string) {
 func (h *History) prefixArg(t *rapid.T, ti int) ([]byte, string) {
 	s := h.eng.slots[ti]
 	es := s.model.Sorted()
-	mode := weighted(t, []int{1, 2, 5, 2, 3, 1, 2}, "pmode")
+	mode := weighted(t, []int{1, 2, 5, 2, 3, 1, 2, 3}, "pmode")
 	if len(es) == 0 && mode != 0 {
 		mode = 6
 	}
@@ -386,6 +386,25 @@ func (h *History) prefixArg(t *rapid.T, ti int) ([]byte, string) {
 			k = append(k, 'z')
 		}
 		return k, "longer"
+	case 7: // the beginning of a stored key with one earlier byte changed: leaves the tree inside an
+		// upper (possibly long, only partly inline) path and still ends inside a deeper one
+		k := es[drawInt(t, 0, len(es)-1, "pi")].Raw
+		if len(k) < 2 {
+			return fix(clone(k), "cut")
+		}
+		cut := pick(t, append(cutOffsets(len(k)), drawInt(t, 1, len(k)-1, "rc"), len(k)-1, len(k)-2), "pcut")
+		cut = max(cut, 1)
+		p := clone(k[:cut+1])
+		pos := pick(t, []int{cut - 1, 10, 11, 12, 9, drawInt(t, 0, cut-1, "rpos")}, "chpos")
+		if pos >= cut {
+			pos = cut - 1
+		}
+		if coll {
+			p[pos] ^= 0x01
+		} else {
+			p[pos] ^= byte(pick(t, []int{0x01, 0x20, 0x80}, "chx"))
+		}
+		return fix(p, "cut-changed")
 	}
 	k, _ := h.nearKey(t, ti)
 	return fix(k, "near")
